@@ -129,7 +129,8 @@ ClassA0 == ClassAst(B("Top$In$$Lambda0"), B("a"))
 \* ---- ambiguity alphabet (mode "ambig") ---------------------------------------------------------
 \* one class, <= MaxRecs entries that all share the obfuscated name m: method lookup must answer
 \* iff ALL of them carry the same original name (first = last is not enough)
-AmbigAlpha == {EntryAst(r, <<>>, <<>>, nm, B("m")) : r \in {<<>>, <<D(1), D(2)>>}, nm \in {B("p"), B("q")}}
+\* (the original class qualifier is NOT part of the comparison: p and x.Y.p agree)
+AmbigAlpha == {EntryAst(r, <<>>, oc, nm, B("m")) : r \in {<<>>, <<D(1), D(2)>>}, nm \in {B("p"), B("q")}, oc \in {<<>>, <<B("x.Y")>>}}
 
 \* ---- adversarial class names (mode "names") -------------------------------------
 \* up to MaxRecs class blocks whose obfuscated names are close in byte order; each block has one
